@@ -213,11 +213,36 @@ class KaniSession:
             with open(src, "a") as f:
                 f.write('\n#[cfg(kani)]\n#[path = "verif_kani_%s"]\npub(crate) mod verif_kani;\n' % fn)
             self.mounted.append(mod)
-        # contract attributes spliced onto the real functions (kani/contracts.json)
-        cpath = os.path.join(VERIF, "kani", "contracts.json")
-        if os.path.exists(cpath):
-            self.splice_contracts(json.load(open(cpath)))
+        self.contracts_on = False
+        self.pristine = {}
         self.prepared = True
+
+    def set_contracts(self, on):
+        """contract attributes (kani/contracts.json) are spliced onto the real functions only for the proof_for_contract
+        harnesses: a function that carries a contract cannot also be replaced by a stub in the same build (Kani: "Failed to
+        find contract closure"), and several regular harnesses stub ci_wilson."""
+        if not self.prepared:
+            self.prepare()
+        if on == self.contracts_on:
+            return
+        cpath = os.path.join(VERIF, "kani", "contracts.json")
+        cdir = os.path.join(VERIF, "kani", "harness_contracts")
+        if on:
+            cs = json.load(open(cpath)) if os.path.exists(cpath) else []
+            mods = sorted(f[:-3] for f in os.listdir(cdir) if f.endswith(".rs")) if os.path.isdir(cdir) else []
+            for rel in sorted(set(c["file"] for c in cs) | set("src/%s.rs" % m for m in mods)):
+                self.pristine[rel] = open(os.path.join(self.crate, rel)).read()
+            self.splice_contracts(cs)
+            # the proof_for_contract harnesses live in their own child module, mounted only now (they do not compile
+            # against functions without a contract)
+            for m in mods:
+                shutil.copy(os.path.join(cdir, m + ".rs"), os.path.join(self.crate, "src", "verif_kani_contracts_%s.rs" % m))
+                with open(os.path.join(self.crate, "src", m + ".rs"), "a") as f:
+                    f.write('\n#[cfg(kani)]\n#[path = "verif_kani_contracts_%s.rs"]\npub(crate) mod verif_kani_contracts;\n' % m)
+        else:
+            for rel, txt in self.pristine.items():
+                open(os.path.join(self.crate, rel), "w").write(txt)
+        self.contracts_on = on
 
     def splice_contracts(self, contracts):
         by_file = {}
@@ -243,10 +268,11 @@ class KaniSession:
                 lines[hit] = indent + " ".join("#[cfg_attr(kani, %s)]" % a for a in c["attrs"]) + " " + lines[hit].lstrip()
             open(p, "w").write("\n".join(lines))
 
-    def run(self, harnesses, jobs=8, timeout=1800, extra=()):
+    def run(self, harnesses, jobs=8, timeout=1800, extra=(), contracts=False):
         """run the named harnesses (exact names) in parallel; returns {harness: result}"""
         if not self.prepared:
             self.prepare()
+        self.set_contracts(contracts)
         cmd = ["cargo", "kani", "-Z", "function-contracts", "-Z", "stubbing", "-Z", "unstable-options",
                "--harness-timeout", "%ds" % self.harness_timeout, "-j", str(jobs), "--output-format", "terse"]
         cmd += list(extra)
@@ -268,6 +294,7 @@ class KaniSession:
         return res
 
     def run_single_regular(self, harness, timeout=1800, playback=False):
+        self.set_contracts(harness in getattr(self, "contract_harnesses", ()))
         cmd = ["cargo", "kani", "-Z", "function-contracts", "-Z", "stubbing", "--harness", harness]
         if playback:
             cmd += ["-Z", "concrete-playback", "--concrete-playback=print"]
@@ -340,12 +367,14 @@ def parse_kani_terse(out):
 
 def list_harnesses(prefixes):
     """harness fn names in kani/harness/*.rs whose name starts with one of the prefixes"""
-    hdir = os.path.join(VERIF, "kani", "harness")
     found = {}
-    for fn in sorted(os.listdir(hdir)):
-        if not fn.endswith(".rs"):
-            continue
-        src = open(os.path.join(hdir, fn)).read()
+    files = []
+    for sub in ("harness", "harness_contracts"):
+        d = os.path.join(VERIF, "kani", sub)
+        if os.path.isdir(d):
+            files += [(os.path.join(d, fn), fn) for fn in sorted(os.listdir(d)) if fn.endswith(".rs")]
+    for path_, fn in files:
+        src = open(path_).read()
         for m in re.finditer(r"#\[kani::proof(?:_for_contract\([^)]*\))?\]((?:\s*#\[[^\]]*\])*)\s*(?:pub\s+)?fn\s+(\w+)", src):
             attrs, name = m.group(1), m.group(2)
             if any(name.startswith(p) for p in prefixes):
@@ -487,9 +516,18 @@ def main():
                 ks = KaniSession(keep=a.keep)
                 ks.harness_timeout = 600 if a.tier == "quick" else 2400
                 try:
-                    res = ks.run(sorted(hs), jobs=int(os.environ.get("VERIF_JOBS", "8")),
-                                 timeout=kspec.get("timeout", 1500) if a.tier == "quick" else kspec.get("timeout_thorough", 5400))
-                    cmds.append(ks.last_cmd)
+                    tmo_k = kspec.get("timeout", 1500) if a.tier == "quick" else kspec.get("timeout_thorough", 5400)
+                    regular = sorted(h for h, m_ in hs.items() if not m_["contract"])
+                    contract = sorted(h for h, m_ in hs.items() if m_["contract"])
+                    ks.contract_harnesses = set(contract)
+                    res = {}
+                    if regular:
+                        res.update(ks.run(regular, jobs=int(os.environ.get("VERIF_JOBS", "8")), timeout=tmo_k))
+                        cmds.append(ks.last_cmd)
+                    if contract:
+                        # second build of the same scratch copy, now with the contract attributes of kani/contracts.json spliced in
+                        res.update(ks.run(contract, jobs=int(os.environ.get("VERIF_JOBS", "8")), timeout=tmo_k, contracts=True))
+                        cmds.append(ks.last_cmd + "   # with kani/contracts.json spliced onto the real functions")
                     for h, meta in sorted(hs.items()):
                         r = res.get(h)
                         if r is None or r["status"] is None:
